@@ -482,7 +482,31 @@ func TestC27(t *testing.T) {
 		"ed25519 and blake2b from the Go standard/x libraries are trusted",
 	)
 
+	// deterministic sweep of the "tokens dropped / tokens appear" shapes: position
+	// of the token-bearing input and output, mint / burn / none; coin side exact
+	nSweep := 0
+	for _, era := range []Era{Mary, Alonzo, Babbage, Conway, Dijkstra} {
+		for _, sh := range shapeSweep() {
+			c := buildShape(era, sh, defaultParams(era))
+			nSweep++
+			rec.Class("sweep:" + era.String())
+			c27Judge(rec, c, sh.String(), func(m string) { t.Fatalf("%s", m) },
+				func(key, what string, cs any) bool { return rec.Violation(key, what, cs) })
+		}
+	}
+	rec.SetExtra("shape_sweep_cases", nSweep)
+
+	assetEras := []Era{Mary, Alonzo, Babbage, Conway, Dijkstra}
 	rec.Check(func(rt *rapid.T) {
+		if rapid.IntRange(0, 3).Draw(rt, "shapeFamily") == 0 {
+			era := assetEras[rapid.IntRange(0, len(assetEras)-1).Draw(rt, "shapeEra")]
+			sh := genShape(rt)
+			c := buildShape(era, sh, genParams(rt, era))
+			rec.Class("family:shape")
+			c27Judge(rec, c, sh.String(), func(m string) { rt.Fatalf("%s", m) },
+				func(key, what string, cs any) bool { return rec.Fail(rt, key, what, cs) })
+			return
+		}
 		era := allEras[rapid.IntRange(0, len(allEras)-1).Draw(rt, "era")]
 		twice := rapid.IntRange(0, 3).Draw(rt, "allowPoolTwice") == 0
 		c := genCase(rt, era, genOpts{MaxCerts: 3, PoolRegTwice: twice, Bystanders: true, AllowNoOutputs: true})
@@ -504,147 +528,177 @@ func TestC27(t *testing.T) {
 				}
 			}
 		}
-		st, err := c.state()
-		if err != nil {
-			rt.Fatalf("harness: state: %v", err)
-		}
-		raw, _ := c.Tx.Encode()
-		dtx, err := decodeTx(era, raw)
-		if err != nil {
-			rec.Class(fmt.Sprintf("%s:decode_rejected", era))
-			rec.Class("decode_rejected:" + op)
+		c27Judge(rec, c, op, func(m string) { rt.Fatalf("%s", m) },
+			func(key, what string, cs any) bool { return rec.Fail(rt, key, what, cs) })
+	})
+}
+
+// c27Judge decodes the case, runs the era's conservation rule and the full rule
+// list, records the evidence classes and applies the oracle. fail is rec.Fail
+// (inside rapid) or rec.Violation (deterministic sweep).
+func c27Judge(rec *evi.Recorder, c *Case, op string, fatal func(string), fail func(key, what string, cs any) bool) {
+	era := c.Tx.Era
+	st, err := c.state()
+	if err != nil {
+		fatal(fmt.Sprintf("harness: state: %v", err))
+		return
+	}
+	raw, _ := c.Tx.Encode()
+	dtx, err := decodeTx(era, raw)
+	if err != nil {
+		rec.Class(fmt.Sprintf("%s:decode_rejected", era))
+		rec.Class("decode_rejected:" + op)
+		return
+	}
+	pp := c.P.forEra(era)
+	snapBefore := snapshotQuantities(dtx)
+	ruleErr := conservationRule(era)(dtx, c.Slot, st, pp)
+	fullErr := common.VerifyTransaction(dtx, c.Slot, st, pp, rulesFor(era))
+	// validation must be a pure observer: same outputs afterwards, same verdict again
+	ruleErr2 := conservationRule(era)(dtx, c.Slot, st, pp)
+	if diff := diffSnapshots(snapBefore, snapshotQuantities(dtx)); diff != "" {
+		cs := describeCase(c)
+		cs["before"] = snapBefore
+		if fail(fmt.Sprintf("C27:%s:rule-mutates-output-quantity", era),
+			fmt.Sprintf("%s: validating the transaction changed the values its outputs carry: %s", era, diff), cs) {
 			return
 		}
-		pp := c.P.forEra(era)
-		snapBefore := snapshotQuantities(dtx)
-		ruleErr := conservationRule(era)(dtx, c.Slot, st, pp)
-		fullErr := common.VerifyTransaction(dtx, c.Slot, st, pp, rulesFor(era))
-		// validation must be a pure observer: same outputs afterwards, same verdict again
-		ruleErr2 := conservationRule(era)(dtx, c.Slot, st, pp)
-		if diff := diffSnapshots(snapBefore, snapshotQuantities(dtx)); diff != "" {
-			cs := describeCase(c)
-			cs["before"] = snapBefore
-			if rec.Fail(rt, fmt.Sprintf("C27:%s:rule-mutates-output-quantity", era),
-				fmt.Sprintf("%s: validating the transaction changed the values its outputs carry: %s", era, diff), cs) {
-				return
-			}
+	}
+	if (ruleErr == nil) != (ruleErr2 == nil) {
+		if fail(fmt.Sprintf("C27:%s:second-run-of-conservation-rule-differs", era),
+			fmt.Sprintf("%s: the conservation rule gives %v and then %v on the same decoded transaction", era, ruleErr, ruleErr2), describeCase(c)) {
+			return
 		}
-		if (ruleErr == nil) != (ruleErr2 == nil) {
-			if rec.Fail(rt, fmt.Sprintf("C27:%s:second-run-of-conservation-rule-differs", era),
-				fmt.Sprintf("%s: the conservation rule gives %v and then %v on the same decoded transaction", era, ruleErr, ruleErr2), describeCase(c)) {
-				return
-			}
-		}
-		if assetInSeveralOutputs(c.Tx) {
-			rec.Class("same_asset_in_several_outputs")
-		}
-		want, why := refBalanced(refConsumed(c.Tx, c.P), refProduced(c.Tx, c.P, c.SS))
-		rec.Eval()
+	}
+	if assetInSeveralOutputs(c.Tx) {
+		rec.Class("same_asset_in_several_outputs")
+	}
+	want, why := refBalanced(refConsumed(c.Tx, c.P), refProduced(c.Tx, c.P, c.SS))
+	rec.Eval()
 
-		tx := c.Tx
-		hasAssets := false
-		for _, in := range tx.Ins {
-			hasAssets = hasAssets || len(in.V.Assets) > 0
-		}
-		rec.Class(fmt.Sprintf("%s:ref_balanced=%v", era, want))
-		if op == "" {
-			rec.Class("mode:as_generated")
-			if fullErr == nil {
-				rec.Class("as_generated:full_list_accepts")
-			} else {
-				rec.Class("as_generated:full_list_rejects")
-				rec.Class(fmt.Sprintf("as_generated:full_list_rejects:%s:%s", era, errClass(fullErr)))
-			}
+	tx := c.Tx
+	hasAssets := false
+	for _, in := range tx.Ins {
+		hasAssets = hasAssets || len(in.V.Assets) > 0
+	}
+	rec.Class(fmt.Sprintf("%s:ref_balanced=%v", era, want))
+	if op == "" {
+		rec.Class("mode:as_generated")
+		if fullErr == nil {
+			rec.Class("as_generated:full_list_accepts")
 		} else {
-			parts := strings.Split(op, "+")
-			if len(parts) > 1 {
-				rec.Class("mode:two_mutations")
-			} else {
-				rec.Class("mode:one_mutation")
-			}
-			for _, p := range parts {
-				rec.Class("op:" + p)
-			}
+			rec.Class("as_generated:full_list_rejects")
+			rec.Class(fmt.Sprintf("as_generated:full_list_rejects:%s:%s", era, errClass(fullErr)))
 		}
-		for _, ct := range tx.Certs {
-			rec.Class(fmt.Sprintf("cert_kind_%d", ct.Kind))
-			if ct.Kind == CPoolReg {
-				rec.Class(fmt.Sprintf("pool_reg_new=%v", !c.SS.Pools[ct.Pool]))
+	} else if strings.HasPrefix(op, "shape:") {
+		rec.Class("mode:shape")
+		for _, part := range strings.Split(op, ":")[1:] {
+			rec.Class(fmt.Sprintf("shape:%s:%s", era, part))
+		}
+		rec.Class(fmt.Sprintf("shape:ref_balanced=%v", want))
+		if n := len(tx.Ins); n >= 2 && len(tx.Mint) == 0 && len(tx.Ins[n-1].V.Assets) == 0 && !want {
+			dropped := true
+			for _, o := range tx.Outs {
+				dropped = dropped && len(o.V.Assets) == 0
 			}
-		}
-		if len(tx.Wdrl) > 0 {
-			rec.Class("has_withdrawals")
-		}
-		if len(tx.Mint) > 0 {
-			rec.Class("has_mint")
-			for _, m := range tx.Mint {
-				if m.Q.Sign() < 0 {
-					rec.Class("has_burn")
-					break
-				}
+			if dropped {
+				rec.Class(fmt.Sprintf("shape:%s:tokens_dropped_last_input_ada_only", era))
 			}
 		}
-		if hasAssets {
-			rec.Class("has_input_assets")
+		if want {
+			rec.Class(fmt.Sprintf("shape:balanced:full_list_accepts=%v", fullErr == nil))
+			if fullErr != nil {
+				rec.Class("shape:balanced:full_list_rejects:" + errClass(fullErr))
+			}
 		}
-		if len(tx.Props) > 0 {
-			rec.Class("has_proposals")
+	} else {
+		parts := strings.Split(op, "+")
+		if len(parts) > 1 {
+			rec.Class("mode:two_mutations")
+		} else {
+			rec.Class("mode:one_mutation")
 		}
-		if tx.Donation != nil {
-			rec.Class("has_donation")
+		for _, p := range parts {
+			rec.Class("op:" + p)
 		}
-		if len(tx.Coll) > 0 {
-			rec.Class("has_collateral_inputs")
+	}
+	for _, ct := range tx.Certs {
+		rec.Class(fmt.Sprintf("cert_kind_%d", ct.Kind))
+		if ct.Kind == CPoolReg {
+			rec.Class(fmt.Sprintf("pool_reg_new=%v", !c.SS.Pools[ct.Pool]))
 		}
-		if tx.CollRet != nil {
-			rec.Class("has_collateral_return")
+	}
+	if len(tx.Wdrl) > 0 {
+		rec.Class("has_withdrawals")
+	}
+	if len(tx.Mint) > 0 {
+		rec.Class("has_mint")
+		for _, m := range tx.Mint {
+			if m.Q.Sign() < 0 {
+				rec.Class("has_burn")
+				break
+			}
 		}
-		if len(tx.RefIns) > 0 {
-			rec.Class("has_reference_inputs")
-		}
-		if len(tx.Outs) == 0 {
-			rec.Class("no_outputs")
-		}
-		if poolRegisteredTwice(tx, c.SS) {
-			rec.Class("new_pool_registered_twice")
-		}
-		if z, _ := hasZeroPolicyMint(tx); z {
-			rec.Class(fmt.Sprintf("zero_policy_mint:%s:rule_accepts=%v:full_list_accepts=%v:ref_balanced=%v", era, ruleErr == nil, fullErr == nil, want))
-		}
-		if len(tx.Certs) > 0 || len(tx.Wdrl) > 0 || len(tx.Mint) > 0 || hasAssets || len(tx.Props) > 0 || tx.Donation != nil || op != "" {
-			h := hash256(raw)
-			rec.NonTrivial(fmt.Sprintf("%s %x %+v %v %v %s", era, h[:], c.P, c.SS.Pools, c.SS.StakeReg, op),
-				map[string]any{"era": era.String(), "mutation": op, "ref_balanced": want, "ref_difference": why,
-					"rule_accepts": ruleErr == nil, "full_list_accepts": fullErr == nil, "tx": evi.Hex(raw)})
-		}
+	}
+	if hasAssets {
+		rec.Class("has_input_assets")
+	}
+	if len(tx.Props) > 0 {
+		rec.Class("has_proposals")
+	}
+	if tx.Donation != nil {
+		rec.Class("has_donation")
+	}
+	if len(tx.Coll) > 0 {
+		rec.Class("has_collateral_inputs")
+	}
+	if tx.CollRet != nil {
+		rec.Class("has_collateral_return")
+	}
+	if len(tx.RefIns) > 0 {
+		rec.Class("has_reference_inputs")
+	}
+	if len(tx.Outs) == 0 {
+		rec.Class("no_outputs")
+	}
+	if poolRegisteredTwice(tx, c.SS) {
+		rec.Class("new_pool_registered_twice")
+	}
+	if z, _ := hasZeroPolicyMint(tx); z {
+		rec.Class(fmt.Sprintf("zero_policy_mint:%s:rule_accepts=%v:full_list_accepts=%v:ref_balanced=%v", era, ruleErr == nil, fullErr == nil, want))
+	}
+	if len(tx.Certs) > 0 || len(tx.Wdrl) > 0 || len(tx.Mint) > 0 || hasAssets || len(tx.Props) > 0 || tx.Donation != nil || op != "" {
+		h := hash256(raw)
+		rec.NonTrivial(fmt.Sprintf("%s %x %+v %v %v %s", era, h[:], c.P, c.SS.Pools, c.SS.StakeReg, op),
+			map[string]any{"era": era.String(), "mutation": op, "ref_balanced": want, "ref_difference": why,
+				"rule_accepts": ruleErr == nil, "full_list_accepts": fullErr == nil, "tx": evi.Hex(raw)})
+	}
 
-		libAccepts := ruleErr == nil
-		if libAccepts != want {
-			cs := describeCase(c)
-			cs["mutation"] = op
-			cs["ref_balanced"] = want
-			cs["ref_difference"] = why
-			cs["rule_error"] = fmt.Sprint(ruleErr)
-			cs["full_list_error"] = fmt.Sprint(fullErr)
-			what := fmt.Sprintf("%s UtxoValidateValueNotConservedUtxo accepts=%v but the reference balance says balanced=%v (%s); mutation=%q; rule error: %v; full rule list accepts=%v",
-				era, libAccepts, want, why, op, ruleErr, fullErr == nil)
-			if rec.Fail(rt, c27Key(c, op, libAccepts), what, cs) {
-				return
-			}
+	libAccepts := ruleErr == nil
+	if libAccepts != want {
+		cs := describeCase(c)
+		cs["mutation"] = op
+		cs["ref_balanced"] = want
+		cs["ref_difference"] = why
+		cs["rule_error"] = fmt.Sprint(ruleErr)
+		cs["full_list_error"] = fmt.Sprint(fullErr)
+		what := fmt.Sprintf("%s UtxoValidateValueNotConservedUtxo accepts=%v but the reference balance says balanced=%v (%s); mutation=%q; rule error: %v; full rule list accepts=%v",
+			era, libAccepts, want, why, op, ruleErr, fullErr == nil)
+		if fail(c27Key(c, op, libAccepts), what, cs) {
+			return
 		}
-		if fullErr == nil && !want {
-			// implied by the rule check above unless the list omits the rule
-			cs := describeCase(c)
-			cs["mutation"] = op
-			cs["ref_difference"] = why
-			if rec.Fail(rt, c27Key(c, op, true)+":full-list", fmt.Sprintf("%s full rule list accepts an unbalanced transaction (%s)", era, why), cs) {
-				return
-			}
+	} else if fullErr == nil && !want {
+		// implied by the rule check above unless the list omits the rule
+		cs := describeCase(c)
+		cs["mutation"] = op
+		cs["ref_difference"] = why
+		if fail(c27Key(c, op, true)+":full-list", fmt.Sprintf("%s full rule list accepts an unbalanced transaction (%s)", era, why), cs) {
+			return
 		}
-		if libAccepts {
-			rec.Class("rule_accepts")
-		} else {
-			rec.Class("rule_rejects")
-		}
-	})
+	}
+	if libAccepts {
+		rec.Class("rule_accepts")
+	} else {
+		rec.Class("rule_rejects")
+	}
 }
